@@ -5,8 +5,9 @@ Theorems about `prune` (`Manager.PruneBlocks`, as repaired: the height is clampe
 about resubmission of pruned blocks (`AddBlocks`, as repaired: a pruned block is skipped) in the
 model `Verif/Model/Chain.lean`.  Tied to the code by `harness/c19`.
 -/
-import Verif.Lemmas.Chain
+import Verif.Lemmas.Prune
 import Verif.Props.C01
+import Verif.Props.C04
 
 namespace Verif.C19
 open Verif.Chain
@@ -113,7 +114,63 @@ theorem resubmit_pruned_batch_noop (U : Nat → Blk) (m : Mgr) (batch : List Nat
     rw [resubmit_pruned_skipped U m b cs bs (hp b (by simp))]
     exact ih b (fun x hx => hp x (List.mem_cons_of_mem _ hx))
 
+/-- an operation of a node that prunes: a block submission or a prune -/
+inductive NodeOp where
+  | add (batch : List Nat)
+  | prune (height : Nat)
+
+def stepOp (U : Nat → Blk) (m : Mgr) : NodeOp → Mgr
+  | .add batch => (addBlocks U m batch).1
+  | .prune h => prune m h
+
+def runOps (U : Nat → Blk) : Mgr → List NodeOp → Mgr
+  | m, [] => m
+  | m, op :: ops => runOps U (stepOp U m op) ops
+
+/-- the pruning-tolerant invariant holds after any interleaving of submissions and prunes -/
+theorem winv_reachable {U} (hU : WFU U) (ops : List NodeOp) : WInv U (runOps U Mgr.init ops) := by
+  suffices h : ∀ m, WInv U m → WInv U (runOps U m ops) from h _ (inv_init hU).toWInv
+  induction ops with
+  | nil => intro m h; exact h
+  | cons op ops ih =>
+    intro m h
+    apply ih
+    cases op with
+    | add batch => exact (addBlocks_w hU h batch).1
+    | prune height => exact prune_w h height
+
+/-- **never a panic**: after any interleaving of block submissions (valid, invalid, forks above,
+at or below the pruned height, resubmission of pruned blocks) and prunes at any heights, the next
+`AddBlocks` returns normally — with a result or an error, never the nil-supplement dereference
+or the non-attaching-block panic -/
+theorem never_panics_with_pruning {U} (hU : WFU U) (ops : List NodeOp) (batch : List Nat) :
+    (addBlocks U (runOps U Mgr.init ops) batch).2 ≠ some .panic :=
+  (addBlocks_w hU (winv_reachable hU ops) batch).2
+
+/-- and the best chain stays parent-linked from genesis with every block either fully stored or
+pruned to its header (never a body without its supplement) -/
+theorem best_chain_wellformed_with_pruning {U} (hU : WFU U) (ops : List NodeOp) :
+    Chain U (runOps U Mgr.init ops).best ∧
+    ∀ i ∈ (runOps U Mgr.init ops).best,
+      (runOps U Mgr.init ops).recs i = some ⟨true, true⟩ ∨ (runOps U Mgr.init ops).recs i = some ⟨false, false⟩ :=
+  ⟨(winv_reachable hU ops).chain, (winv_reachable hU ops).bestrec⟩
+
+/-- TARGET (not yet proved): with pruning a failed reorg is still always rolled back, i.e.
+`rollbackFailed` is unreachable as well.  The argument needs the minimality of the meeting point
+`reorgPath` finds (the rollback re-applies exactly the blocks the failed attempt reverted, which
+all still have bodies); today this is checked by the correspondence/oracle of `harness/c19` only. -/
+def rollback_never_fails_with_pruning_full : Prop :=
+  ∀ (U : Nat → Blk), WFU U → ∀ (ops : List NodeOp) (batch : List Nat),
+    (addBlocks U (runOps U Mgr.init ops) batch).2 ≠ some .rollbackFailed
+
 /-! ### non-vacuity -/
+
+-- a fork point at the pruned height still works
+example : (runOps C04.Ure Mgr.init [.add [1, 2], .prune 2, .add [1], .add [3, 4]]).best = [4, 3, 1, 0] := by decide
+-- prune below the fork, resubmit the pruned blocks, then reorg below them: an error, not a panic
+example : (addBlocks C04.Ure (runOps C04.Ure Mgr.init [.add [1, 2], .prune 3, .add [1]]) [3, 4]).2 = some .reorgFailed := by decide
+example : (runOps C04.Ure Mgr.init [.add [1, 2], .prune 3, .add [1], .add [3, 4]]).best = [2, 1, 0] := by decide
+
 
 example : (prune (C01.run C01.Uex Mgr.init [[1, 2], [6]]) 2).block 1 = none := by decide
 example : (prune (C01.run C01.Uex Mgr.init [[1, 2], [6]]) 2).block 2 = some true := by decide
